@@ -46,7 +46,7 @@ CLAIMED = {
     "C06": dict(
         text="Coq theorems over the Gallina model of http_udp_codec.rs: for every record sequence and EVERY segmentation the "
              "decoder delivers exactly the PROTOCOL.md 6.3 datagrams of the accepted records and skips rejected ones whole "
-             "(decode_segmentation_invariant + stream_decomposes), never panics (decoder_total), encoder = 6.4 layout; tied to "
+             "(decode_segmentation_invariant + stream_decomposes), never panics (decoder_total), encoder = 6.4 layout; the 16-byte address field reads back what was written for every IPv4 address but 0.0.0.1 and every IPv6 address that is ::1 or has a bit set in its upper 96 bits, and the theorem says how each remaining one is read (address_field_round_trip); tied to "
              "the code by regenerated constants and a differential run of the real Decoder/Encoder against the extracted model "
              "and the whole-stream spec oracle",
         note="trusted: Coq kernel, hand-written model Model/UdpCodec.v, translator (constants, ::1 flag), extraction + OCaml driver "
@@ -141,7 +141,7 @@ CLAIMED["C08"] = dict(
          "segmentation_invariant), that outcome is the one the stream determines (Spec: request found / parse error / undecided at the "
          "1024-byte limit refused / closed before a complete head), the loop never runs out of fuel (never spins), the upload side "
          "receives exactly the remaining bytes in non-empty chunks; the code as found is proved to spin on any cut head. The executable "
-         "model's parser is proved stable. Tied by translator facts (Http1Facts.v) and by the differential run of the real codec on "
+         "model's parser is proved stable; the download direction is the response side of the codec over a scripted transport with partial writes and listen futures dropped while a write is pending (engine c18_dl against Model/Http1Download.v: what the codec accepted is what the client gets). Tied by translator facts (Http1Facts.v) and by the differential run of the real codec on "
          "in-memory streams: every 1-cut, random 2/3-cuts, byte-at-a-time, line cuts, truncated streams, size and header-count limits, "
          "near-miss invalid heads (metamorphic: same as whole delivery), response well-formedness, read-poll count; theorem response_head_is_well_formed: for every status, reason and field list as the http crate holds them the bytes encode_response writes are read back under the RFC 9112 grammar (Spec/Rfc9112.v) as exactly those fields, ending where the payload starts; tied by the fact on the writers' text and the doors verif::http1::encode_response / encode_request against the model and an independent reader",
     note="partial: httparse is a parameter of the proof (assumed left-to-right stable; checked only by the differential run); the "
@@ -247,7 +247,7 @@ CLAIMED["C20"] = dict(
     text="Coq theorems on the model of the scrubbing functions (Model/Scrub.v): a scrubbed request shows nothing but the placeholder for "
          "Authorization, Proxy-Authorization and Cookie, whatever and however many values they carried, keeps those names visible, and "
          "leaves every other header, the method, the URI and the version unchanged; an SNI <credentials>.<host> is shown as "
-         "scrubbed.<host> for every credentials label; the Debug form of presented credentials is a constant. That every log or "
+         "scrubbed.<host> for every credentials label; the Debug form of presented credentials is a constant; non-interference (scrubbed_request_is_independent_of_the_secret_values): two requests that differ at most in the values of the three headers have the same scrubbed form, hence the same text under ANY rendering, and every byte of a scrubbed header value comes from the placeholder or from a header that is none of the three; the SNI shown is the same for every credentials label. That every log or "
          "error-text site in lib/src printing a request uses scrub_request is a regenerated scan of all macro invocations; the tie to "
          "behaviour is the trace-level log capture of tunnel sessions (HTTP/1.1, HTTP/2, all authenticator and SNI configurations, "
          "accepted / rejected / malformed credentials, every request kind) and of the service channels with unique canaries in every "
